@@ -90,6 +90,7 @@ PayloadOK(e) ==
     /\ \A i \in 1..Len(e.rels) : RelOK(e.rels[i], e.out)
     /\ (\E i \in 1..Len(e.rels) : ~ShapeFits(e.rels[i])) => e.out = "reject"
     /\ e.unknownrel => e.out = "reject"          \* a relationship the type does not have, whatever its object carries
+    /\ e.trailing => e.out = "reject"            \* the payload is one JSON value, nothing after it
     /\ e.out = "accept" => e.attrs_same /\ e.absent_zero /\ e.idtype_same /\ e.remarshal_same
 
 -----------------------------------------------------------------------------
@@ -119,6 +120,7 @@ PartialOK(e) ==
     /\ e.part # "panic"
     /\ e.out # "panic" => e.part = e.out                 \* accepted iff full unmarshaling accepts
     /\ e.unknownrel => e.part = "reject"
+    /\ e.trailing => e.part = "reject"
     /\ e.part = "accept" =>
           /\ e.pname_ok
           /\ AsSet(e.pattrs) = AsSet(e.present) /\ Len(e.pattrs) = Cardinality(AsSet(e.present))
